@@ -32,6 +32,11 @@ SS = 'ic_btc_canister::state::SyncingState'
 
 
 def run(ctx):
+    r1_r2_insert_block(ctx)
+    rest(ctx)
+
+
+def r1_r2_insert_block(ctx):
     prog = ctx.prog
     ib = ctx.fn('R1', 'ic_btc_canister::state::insert_block')
     if ib:
@@ -86,6 +91,10 @@ def run(ctx):
                         if 'ref' in rv and rv.get('mut') and s_['dst']['l'] == (arg0.get('move') or arg0.get('copy') or {}).get('l'):
                             shared = False
                 ctx.check(shared, 'R2', 'validation-gets-shared-ref', vc[0], 'the validation context borrows the state immutably', 'validation context receives &mut State')
+
+
+def rest(ctx):
+    prog = ctx.prog
     require_callers(ctx, 'R1', 'callers:push', ['ic_btc_canister::unstable_blocks::push'], {'ic_btc_canister::state::insert_block'})
     require_callers(ctx, 'R1', 'callers:insert_block', ['ic_btc_canister::state::insert_block'], {'ic_btc_canister::heartbeat::maybe_process_response'})
     require_callers(ctx, 'R1', 'callers:extend', ['ic_btc_canister::blocktree::BlockTree::extend', 'ic_btc_canister::blocktree::BlockTree::extend_cached',
